@@ -211,11 +211,7 @@ def do_OP_NOT(vm: Any) -> None:
 
 
 def do_OP_0NOTEQUAL(vm: Any) -> None:
-    vm.push_int(
-        vm.bool_from_script_bytes(
-            vm.pop(), require_minimal=vm.flags & VERIFY_MINIMALDATA
-        )
-    )
+    vm.append(vm.bool_to_script_bytes(pop_check_bounds(vm) != 0))
 
 
 """
